@@ -12,7 +12,7 @@ import tracecheck
 KINDS = ("pass", "add", "acc", "count", "delay", "echo", "echo", "sum2", "sumu", "sample", "sample2", "sampleu", "lsum", "lsumv")
 
 
-KEEP = {"slots", "ret", "req", "eval", "gstop", "gstart", "gstartfail"}
+KEEP = {"slots", "ret", "req", "eval", "gstop", "gstart", "gstartfail", "fn"}
 
 
 def with_slots(scn):
@@ -63,8 +63,13 @@ def scenarios(rng, n):
             # try_except around delay -> thrower: the child holds a pending wake-up when the cycle is aborted
             horizon = rng.choice([6, 8])
             script = P.gen_script(rng, horizon, maxlen=5, values=(1, 2, -1, 3, -2))
-            lines = ["scn stry%d" % i, "opt start=1 end=%d" % (horizon + 1), "graph g0 nin=1",
-                     "n 2 %s d=%d in=a0" % (rng.choice(["delay", "echo"]), rng.randint(1, 2)), "n 3 throwneg in=2", "out 3", "endgraph", "graph root",
+            if rng.random() < 0.5:
+                body = ["n 2 %s d=%d in=a0" % (rng.choice(["delay", "echo"]), rng.randint(1, 2)), "n 3 throwneg in=2", "out 3"]
+            else:
+                # a self-scheduling chain that does not depend on the thrower but is ranked after it: its wake-ups that were
+                # pending before the aborted cycle stay pending (what it would have done IN the aborted cycle is lost with it)
+                body = ["n 2 throwneg in=a0", "n 3 add k=1 in=a0", "n 6 %s d=%d in=3" % (rng.choice(["delay", "echo"]), rng.randint(2, 3)), "out 6"]
+            lines = ["scn stry%d" % i, "opt start=1 end=%d" % (horizon + 1), "graph g0 nin=1"] + body + ["endgraph", "graph root",
                      "n 1 src script=" + ";".join("%d:%d" % (t, v) for t, v in script), "n 8 tryexc g=0 in=1", "n 4 pass in=8", "n 5 rec in=4",
                      "endgraph", "run"]
             out.append("\n".join(lines))
@@ -106,7 +111,7 @@ def run(chk, pid, rng, n, own_prefixes):
         if any(e["e"] in ("wirefail", "harnessfail") for e in tr):
             continue
         end = int([x for x in scn.splitlines()[1].split() if x.startswith("end=")][0][4:])
-        items.append({"id": k, "prog": {"end": end, "own": pid}, "ev": [e for e in tr if e["e"] in KEEP]})
+        items.append({"id": k, "prog": {"end": end, "own": pid}, "ev": [e for e in tr if e["e"] in KEEP and (e["e"] != "fn" or "throw" in e)]})
     verdicts, st, trn = tracecheck.validate("SlotTrace", "SlotTrace.cfg", items, "slots-" + pid, keep=KEEP)
     chk.coverage["states"] += st
     chk.coverage["transitions"] += trn
